@@ -49,7 +49,12 @@ func vfNewCache(cfg vfCfg) (*Cache[uint64, vfVal], *vfMon) {
 	c := &Config[uint64, vfVal]{
 		NumCounters: cfg.NumCounters, MaxCost: cfg.MaxCost, BufferItems: cfg.BufferItems, Metrics: cfg.Metrics,
 		Cost: cfg.Cost, ShouldUpdate: cfg.ShouldUpdate, IgnoreInternalCost: cfg.IgnoreInternalCost,
-		KeyToHash: func(k uint64) (uint64, uint64) { return mon.hash[k], mon.conf[k] },
+		KeyToHash: func(k uint64) (uint64, uint64) { vfJitter(); return mon.hash[k], mon.conf[k] },
+	}
+	if c.ShouldUpdate == nil {
+		// a seam inside the store's update path (no effect on the symbolic run; perturbs the
+		// native schedule during stress replay)
+		c.ShouldUpdate = func(cur, prev vfVal) bool { vfJitter(); return true }
 	}
 	if !cfg.NoCallbacks {
 		c.OnExit = func(v vfVal) {
